@@ -172,6 +172,13 @@ theorem C18_confined (L : Layout) (vs : List Val) (hwf : wf L.leaves = true) (hg
   rw [C18_facts, C12.C12_tables.1]
   exact Proofs.Codec.marshal_confined L vs hwf hgo
 
+/-- T5 obligation behind (vi): the three encoders whose digits come from formatting a value refuse one that does not
+    fill exactly its field - the regenerated guard constants (`len(*encoded) != N` returning an error in
+    `Date`, `DateTime` and `HHmm.MarshalUT0311L0x`) are the widths of the fields, which is what the model's `fitting`
+    steps say (before the repair of D16 the list read 0, 0, 0) -/
+theorem C18_width_guards : Gen.Types.marshalWidthGuards =
+    [("Date", Kind.width .date), ("DateTime", Kind.width .dateTime), ("HHmm", Kind.width .hhmm)] := by decide
+
 /-! non-vacuity of (vi): an 8-byte MAC in front of a two-byte field, an HH:mm of 100:01 on the last two bytes - the
     layout is well formed, the values are Go values, neither is in its domain, bytes come back, and they are confined -/
 def wildLayout : Layout :=
